@@ -67,14 +67,31 @@ func (h Handler) HandleIQ(iq stanza.IQ, r xmlstream.TokenReadEncoder, start *xml
 	iter := xmlstream.NewIter(r)
 	var found bool
 	for iter.Next() {
+		itemStart, inner := iter.Current()
+		// Skip anything that is not an element (eg. character data).
+		if itemStart == nil {
+			continue
+		}
 		found = true
-		itemStart, r := iter.Current()
-		jstr := itemStart.Attr[0].Value
-		j := jid.MustParse(jstr)
+		var jstr string
+		for _, attr := range itemStart.Attr {
+			if attr.Name.Local == "jid" {
+				jstr = attr.Value
+				break
+			}
+		}
+		j, err := jid.Parse(jstr)
+		if err != nil {
+			_, err = xmlstream.Copy(r, iq.Error(stanza.Error{
+				Type:      stanza.Modify,
+				Condition: stanza.JIDMalformed,
+			}))
+			return err
+		}
 		switch start.Name.Local {
 		case "block":
 			item := Item{}
-			d := xml.NewTokenDecoder(xmlstream.MultiReader(xmlstream.Token(*itemStart), r))
+			d := xml.NewTokenDecoder(xmlstream.MultiReader(xmlstream.Token(*itemStart), inner))
 			if err := d.Decode(&item); err != nil {
 				return err
 			}
